@@ -250,6 +250,7 @@ def handle (op : String) (j : Json) : Except String Json := do
   match op with
   | "session" =>
     let ctx ← envOfJson (← j.getObjVal? "ctx")
+    if !nodup (ctx.map (·.1)) then throw "duplicate context key"
     let imps ← match j.getObjVal? "imps" with
       | .ok x => envOfJson x
       | .error _ => pure []
